@@ -243,9 +243,20 @@ def h_samples():
             keep = (xl > xl.min() + 0.15 * (xl.max() - xl.min())) & (xl < xl.max() - 0.15 * (xl.max() - xl.min()))
             slope = np.polyfit(xl[keep], comp[keep], 1)[0]
             ob.append((f'{name} periodic array (linear blend): disregistry slope x period = {abs(slope) * L:.4f} vs |b| = {np.linalg.norm(b):.4f}', bool(abs(abs(slope) * L - np.linalg.norm(b)) < 0.015 * np.linalg.norm(b))))
+            # the pair stored on the object is the pair that was returned (reference system trimmed to the remaining atoms)
+            ob.append((f'{name} periodic array: d.base_system / d.disl_system are the returned pair (same number of atoms, atom for atom)', bool(d.base_system.natoms == d.disl_system.natoms == ds.natoms and np.allclose(d.base_system.atoms.pos, base.atoms.pos))))
             x, dis = am.defect.disregistry(base, ds, m=mvec, n=nvec)
             tot = dis[-1] - dis[0]
             ob.append((f'{name} periodic array: disregistry accumulates to one Burgers vector ({np.round(tot, 3).tolist()} vs {np.round(b, 3).tolist()})', bool(np.linalg.norm(np.abs(tot) - np.abs(b)) < 0.25 * np.linalg.norm(b))))
+        # a shift given at construction in units of the rotated cell vectors (shiftscale=True) is that combination of the cell vectors
+        f = CONFIGS['fcc_edge']
+        import atomman as am
+        C = am.ElasticConstants(**f['C'])
+        rel = np.array([0.1, 0.25, 0.4])
+        dsh = am.defect.Dislocation(ucell(f['kind']), C, burgers=f['burgers'], ξ_uvw=f['line'], slip_hkl=f['slip'], m=f['m'], n=f['n'], shift=rel, shiftscale=True)
+        want = rel.dot(np.array(dsh.rcell.box.vects, float))
+        dab = am.defect.Dislocation(ucell(f['kind']), C, burgers=f['burgers'], ξ_uvw=f['line'], slip_hkl=f['slip'], m=f['m'], n=f['n'], shift=want)
+        ob.append((f'constructor shift with shiftscale=True == the same combination of the rotated cell vectors ({np.round(dsh.shift, 4).tolist()} vs {np.round(want, 4).tolist()}), and equals the absolute form', bool(np.allclose(dsh.shift, want, atol=1e-9) and np.allclose(dab.shift, want, atol=1e-9))))
         return ob
     return fn
 
